@@ -151,7 +151,7 @@ def coq_op(name, a, keys):
     if name == "set_client_info":
         return "(OSetClientInfo %s)" % coq_strs(a[0], a[1], a[2])
     if name in ("set_udp_socket", "set_tcp_socket"):
-        return "(%s %s %s)" % ("OSetUdpSocket" if name == "set_udp_socket" else "OSetTcpSocket", coq_bytes(unhx(a[0])), a[1])
+        return "(%s %s %s)" % ("OSetUdpSocket" if name == "set_udp_socket" else "OSetTcpSocket", coq_bytes(unhx(a[0].split("%")[0])), a[1])
     if name == "remove_key":
         return "(ORemoveKey %s)" % coq_bytes(unhx(a[0]))
     if name == "remove_insert":
